@@ -306,6 +306,10 @@ func (x *Exec) havocLoop(st *State, fr *Frame, to *ssa.BasicBlock, li *loopInfo)
 			rk := fmt.Sprintf("lastret:%s:%d", name, i)
 			if cur, ok := st.ghost[rk]; ok {
 				st.ghost[rk] = x.freshConst(st, "lastret", cur.sort)
+			} else if i < 3 {
+				// a result recorded only inside the loop must be one value per iteration at the head
+				// (an invariant relates it to the loop's variables); integer / tag / identity sort
+				st.ghost[rk] = x.freshConst(st, "lastret", SInt)
 			}
 		}
 	}
